@@ -56,7 +56,7 @@ class EnsRank(Family):
                     # mid-rank = 1 + below + (equal-1)/2, kept in halves to stay in integers
                     sumrank = sumrank + 2 + 2 * below + equal - 1
                 F2 = sumrank - m * (m + 1)          # = 2 m^2 F
-                F = fmul(Fraction(1, 2 * m * m), lift(F2))
+                F = fmul(Fraction(1, 2 * m * m), tor(F2))
                 res.append(('fmat[%d,%d]=midrank-comparison' % (i1, i2), fsame(O['fmat'][i1 * n + i2], F, self.tol)))
                 u = fite(F2 < m * m, 0.0, fite(F2 > m * m, 1.0, 0.5))
                 ranks[i1] = fadd(ranks[i1], u)
